@@ -242,11 +242,12 @@ def groups(tier):
         add("P4", 2, 3)
         add("P1", 2, 5, firsts=[0])
     else:
-        for p in PACKS:
+        for p in ("P1", "P2", "P3", "P6"):
             add(p, 2, 5)
+        for p in ("P4", "P5"):
+            add(p, 2, 4)
         for p in ("P1", "P2", "P3"):
             add(p, 3, 4)
-        add("P6", 2, 6, firsts=[0])
     return gs
 
 
@@ -265,7 +266,7 @@ def meta(tier):
         "bounds": {"quick": "all histories of 4 operations (add/stop/verified/not-inferrable on 2 labels, next, do_level) for three packs "
                             "(1 inferral+1 initial+1 set; 2 initial+sets of 2,1; inferral only+1 set), of 3 operations for a pack with "
                             "two sets only, and of 5 operations starting with add(0) for the first pack; each followed by a complete drain",
-                   "thorough": "5 operations x 6 packs over 2 labels; 4 operations x 3 packs over 3 labels; 6 operations for the largest pack starting with add(0)"}[tier],
+                   "thorough": "5 operations x 4 packs and 4 operations x 2 packs over 2 labels; 4 operations x 3 packs over 3 labels"}[tier],
         "outside": ["longer histories, more labels", "user-supplied CSSQueue subclasses", "status() strings"],
         "stubs": ["marker strategies (the queue never calls a strategy)"],
         "assumptions": ["schedule oracle of ~60 lines (run), validated during design on 50 000 random histories against the pinned tree"],
